@@ -69,3 +69,303 @@ def shrink_rhist(obj):
         ok = lambda p: p >= len(b) or (b[p] & 0xC0) != 0x80
         if all(o[0] != 'mut' or (ok(o[1]) and ok(o[2])) for o in ops):
             yield {'inner': t2, 'ops': ops}
+
+# ---------------------------------------------------------------------------
+# histories of observers on trees (C10, C14) and pairs (C13, C14, C20)
+# ---------------------------------------------------------------------------
+import copy, re
+
+HOPS = ['src', 'buf', 'size', 'rope', 'm1', 'm0', 's10', 's00', 's11', 's01', 'hash', 'cl']
+
+def gen_hops(rng, maxlen=8, clone=True):
+    n = weighted(rng, [(1, 1), (2, 2), (3, 3), (4, 3), (rng.randrange(5, maxlen + 1), 3)])
+    pool = ['m1', 'm0', 's10', 's00', 'm1', 'm0', 's10', 's00', 's11', 's01', 'src', 'buf', 'size', 'rope', 'hash'] + (['cl'] if clone else [])
+    return [rng.choice(pool) for _ in range(n)]
+
+def ser_hops(ops):
+    return ' '.join([str(len(ops))] + ops)
+
+def gen_chist_case(rng, cfg):
+    g = gen_tree.Gen(rng, cfg)
+    d = weighted(rng, [(0, 1), (1, 3), (2, 4), (3, 2)])
+    inner = g.node(d)
+    t = ('cached', 99, inner)
+    ops = gen_hops(rng)
+    feats = gen_tree.kinds_of(t, set())
+    if len(ops) >= 2 and len(gen_tree.text_of(t)) >= 2:
+        feats.add('nontrivial')
+    ms = [o for o in ops if o[0] in 'ms']
+    if any(a[0] == 'm' and b[0] == 's' or a[0] == 's' and b[0] == 'm' for a, b in zip(ms, ms[1:])):
+        feats.add('both_fill_paths')
+    if len(set(o[1] for o in ms if len(o) > 1)) == 2:
+        feats.add('both_column_settings')
+    return Case('chist', {'t': t, 'ops': ops}, feats)
+
+def gen_thist_case(rng, cfg):
+    g = gen_tree.Gen(rng, cfg)
+    t = g.node(weighted(rng, [(0, 1), (1, 3), (2, 4), (3, 2)]))
+    ops = gen_hops(rng)
+    feats = gen_tree.kinds_of(t, set())
+    if len(ops) >= 2 and len(gen_tree.text_of(t)) >= 2:
+        feats.add('nontrivial')
+    return Case('thist', {'t': t, 'ops': ops}, feats)
+
+def ser_hist(kind):
+    return lambda obj: '%s %s %s' % (kind, gen_tree.ser_node(obj['t']), ser_hops(obj['ops']))
+
+def shrink_hist(obj):
+    ops = obj['ops']
+    for i in range(len(ops)):
+        yield {'t': obj['t'], 'ops': ops[:i] + ops[i + 1:]}
+    t = obj['t']
+    if t[0] == 'cached' and t[1] == 99:
+        for c2 in gen_tree.shrink_node(t[2]):
+            yield {'t': ('cached', 99, c2), 'ops': ops}
+    else:
+        for c2 in gen_tree.shrink_node(t):
+            yield {'t': c2, 'ops': ops}
+
+# ---- pairs ----
+def ser_pair(obj):
+    return 'pair %d %s %s %s %s' % (1 if obj.get('relaxed') else 0, gen_tree.ser_node(obj['a']), ser_hops(obj.get('opsa', [])),
+                                    gen_tree.ser_node(obj['b']), ser_hops(obj.get('opsb', [])))
+
+def shrink_pair(obj):
+    for k in ('opsa', 'opsb'):
+        ops = obj.get(k, [])
+        for i in range(len(ops)):
+            o2 = dict(obj); o2[k] = ops[:i] + ops[i + 1:]
+            yield o2
+    if obj.get('law') is None:
+        for a2 in gen_tree.shrink_node(obj['a']):
+            o2 = dict(obj); o2['a'] = a2
+            yield o2
+        for b2 in gen_tree.shrink_node(obj['b']):
+            o2 = dict(obj); o2['b'] = b2
+            yield o2
+    else:
+        # keep the law: shrink the ingredients and rebuild both sides
+        parts = obj['parts']
+        for i, p in enumerate(parts):
+            for p2 in gen_tree.shrink_node(p):
+                ps = parts[:i] + [p2] + parts[i + 1:]
+                a, b, relaxed = apply_law(obj['law'], ps, obj.get('law_arg'))
+                o2 = dict(obj); o2.update({'a': a, 'b': b, 'parts': ps, 'relaxed': relaxed})
+                yield o2
+
+def renumber(n, off):
+    """fresh cache ids for a copy of a subtree"""
+    k = n[0]
+    if k == 'cached':
+        return ('cached', n[1] + off, renumber(n[2], off))
+    if k == 'concat':
+        return ('concat', n[1], [(t, renumber(c, off)) for t, c in n[2]])
+    if k == 'repl':
+        return ('repl', renumber(n[1], off), n[2])
+    return n
+
+LAWS = ['nest_typed', 'nest_boxed', 'add_later', 'single_child', 'empty_neighbours', 'replace_none',
+        'replace_empty_insertions', 'cached', 'nest_typed_left', 'concat_of_concats']
+
+def apply_law(law, parts, arg=None):
+    a, b, c = parts[0], parts[1], parts[2]
+    B = lambda x: (False, x)
+    T = lambda x: (True, x)
+    flat = ('concat', 'new', [B(a), B(b), B(c)])
+    relaxed = False
+    if law == 'nest_typed':
+        lhs = ('concat', 'new', [B(a), T(('concat', 'new', [B(b), B(c)]))])
+        rhs = flat
+    elif law == 'nest_typed_left':
+        lhs = ('concat', 'new', [T(('concat', 'new', [B(a), B(b)])), B(c)])
+        rhs = flat
+    elif law == 'nest_boxed':
+        lhs = ('concat', 'new', [B(a), B(('concat', 'new', [B(b), B(c)]))])
+        rhs = flat
+    elif law == 'concat_of_concats':
+        lhs = ('concat', 'new', [T(('concat', 'new', [B(a)])), T(('concat', 'add', [B(b), B(c)]))])
+        rhs = flat
+    elif law == 'add_later':
+        lhs = ('concat', 'add', [B(a), B(b), B(c)])
+        rhs = flat
+    elif law == 'single_child':
+        lhs = ('concat', 'new', [B(a)]); rhs = a
+    elif law == 'empty_neighbours':
+        e1 = arg[0]; e2 = arg[1]
+        lhs = ('concat', 'new', [B(e1), B(a), B(e2)]); rhs = a
+    elif law == 'replace_none':
+        lhs = ('repl', a, []); rhs = a
+    elif law == 'replace_empty_insertions':
+        lhs = ('repl', a, [(p, p, '', None, enf) for (p, enf) in arg]); rhs = a
+        relaxed = True
+    elif law == 'cached':
+        lhs = ('cached', 77, a); rhs = a
+    return lhs, renumber(rhs, 1000), relaxed
+
+def gen_law_case(rng, cfg):
+    g = gen_tree.Gen(rng, cfg)
+    parts = [g.node(weighted(rng, [(0, 2), (1, 3), (2, 3)])) for _ in range(3)]
+    law = rng.choice(LAWS)
+    arg = None
+    if law == 'empty_neighbours':
+        empties = [('raws', ''), ('rstr', ''), ('orig', '', g.file_name('')), ('concat', 'new', []), ('rbuf', b'')]
+        arg = (rng.choice(empties), rng.choice(empties))
+    if law == 'replace_empty_insertions':
+        n = len(gen_tree.text_of(parts[0]))
+        arg = [(rng.randrange(0, n + 2), rng.choice([0, 1, 2])) for _ in range(rng.randrange(1, 4))]
+    a, b, relaxed = apply_law(law, parts, arg)
+    feats = {'law_' + law} | gen_tree.kinds_of(a, set())
+    if len(gen_tree.text_of(a)) >= 2:
+        feats.add('nontrivial')
+    return Case('pair', {'a': a, 'b': b, 'relaxed': relaxed, 'law': law, 'parts': parts, 'law_arg': arg,
+                         'opsa': [], 'opsb': []}, feats)
+
+# ---- one-edit mutations of a tree (C14 unequal pairs, C20) ----
+def nodes_of(n, path=()):
+    yield path, n
+    if n[0] == 'concat':
+        for i, (_, c) in enumerate(n[2]):
+            yield from nodes_of(c, path + (i,))
+    elif n[0] == 'repl':
+        yield from nodes_of(n[1], path + (0,))
+    elif n[0] == 'cached':
+        yield from nodes_of(n[2], path + (0,))
+
+def replace_at(n, path, new):
+    if not path:
+        return new
+    i = path[0]
+    if n[0] == 'concat':
+        items = list(n[2]); items[i] = (items[i][0] and new[0] == 'concat', replace_at(items[i][1], path[1:], new))
+        return ('concat', n[1], items)
+    if n[0] == 'repl':
+        inner = replace_at(n[1], path[1:], new)
+        return ('repl', inner, n[2])
+    if n[0] == 'cached':
+        return ('cached', n[1], replace_at(n[2], path[1:], new))
+
+def edit_text(rng, s):
+    if isinstance(s, bytes):
+        alpha = [b'a', b'b', b'\n']
+        if not s or rng.random() < 0.4:
+            i = rng.randrange(0, len(s) + 1); return s[:i] + rng.choice(alpha) + s[i:]
+        i = rng.randrange(0, len(s))
+        return s[:i] + s[i + 1:] if rng.random() < 0.5 else s[:i] + (b'z' if s[i:i + 1] != b'z' else b'y') + s[i + 1:]
+    if not s or rng.random() < 0.4:
+        i = rng.randrange(0, len(s) + 1); return s[:i] + rng.choice(['a', ';', '\n']) + s[i:]
+    i = rng.randrange(0, len(s))
+    return s[:i] + s[i + 1:] if rng.random() < 0.5 else s[:i] + ('z' if s[i] != 'z' else 'y') + s[i + 1:]
+
+def edit_map(rng, m):
+    m = dict(m)
+    k = rng.choice(['mappings', 'sources', 'contents', 'names', 'file', 'root', 'debug'])
+    if k == 'mappings':
+        segs = list(m.get('segs') or [])
+        if segs and rng.random() < 0.7:
+            i = rng.randrange(0, len(segs))
+            gl, gc, o = segs[i]
+            if o is None:
+                segs[i] = (gl, gc, (0, 1, 0, None))
+            else:
+                segs[i] = (gl, gc, (o[0], o[1] + 1, o[2], o[3]))
+            m['segs'] = segs; m['mappings'] = gen_tree.encode_segments(segs)
+        else:
+            m['mappings'] = m['mappings'] + ';AAAA'
+            m['segs'] = None
+    elif k in ('sources', 'contents', 'names'):
+        l = list(m[k])
+        if l and rng.random() < 0.6:
+            i = rng.randrange(0, len(l)); l[i] = l[i] + 'x'
+        else:
+            l.append('added')
+        m[k] = l
+    else:
+        m[k] = 'x' if m[k] is None else (None if rng.random() < 0.5 else m[k] + 'y')
+    return m
+
+def one_edit(rng, t):
+    """returns (edited tree, kind of edit) - the edit changes something constructor-visible"""
+    nodes = list(nodes_of(t))
+    for _ in range(20):
+        path, n = rng.choice(nodes)
+        k = n[0]
+        if k in ('raws', 'rstr'):
+            r = rng.random()
+            if r < 0.6:
+                return replace_at(t, path, (k, edit_text(rng, n[1]))), 'leaf_text'
+            return replace_at(t, path, ('rstr' if k == 'raws' else 'raws', n[1])), 'leaf_type'
+        if k in ('rawb', 'rbuf'):
+            if rng.random() < 0.7:
+                return replace_at(t, path, (k, edit_text(rng, n[1]))), 'leaf_text'
+            return replace_at(t, path, ('rbuf' if k == 'rawb' else 'rawb', n[1])), 'leaf_type'
+        if k == 'orig':
+            if rng.random() < 0.5:
+                return replace_at(t, path, ('orig', edit_text(rng, n[1]), n[2])), 'leaf_text'
+            return replace_at(t, path, ('orig', n[1], n[2] + 'x')), 'original_name'
+        if k == 'sms':
+            _, value, name, m, orig, inner, remove = n
+            c = rng.choice(['value', 'map', 'orig', 'inner', 'remove', 'name'])
+            if c == 'value':
+                return replace_at(t, path, (k, edit_text(rng, value), name, m, orig, inner, remove)), 'leaf_text'
+            if c == 'map':
+                return replace_at(t, path, (k, value, name, edit_map(rng, m), orig, inner, remove)), 'attached_map'
+            if c == 'orig':
+                return replace_at(t, path, (k, value, name, m, 'o' if orig is None else orig + 'x', inner, remove)), 'original_source'
+            if c == 'inner' and inner is not None:
+                return replace_at(t, path, (k, value, name, m, orig, edit_map(rng, inner), remove)), 'inner_map'
+            if c == 'remove' and inner is not None:
+                return replace_at(t, path, (k, value, name, m, orig, inner, not remove)), 'remove_flag'
+            if c == 'name':
+                return replace_at(t, path, (k, value, name + 'x', m, orig, inner, remove)), 'sms_name'
+            continue
+        if k == 'concat':
+            items = list(n[2])
+            if items and rng.random() < 0.5:
+                i = rng.randrange(0, len(items))
+                return replace_at(t, path, ('concat', n[1], items[:i] + items[i + 1:])), 'child_removed'
+            i = rng.randrange(0, len(items) + 1)
+            return replace_at(t, path, ('concat', n[1], items[:i] + [(False, ('raws', 'q'))] + items[i:])), 'child_added'
+        if k == 'repl':
+            rs = list(n[2])
+            if rs:
+                i = rng.randrange(0, len(rs))
+                s, e, c, nm, enf = rs[i]
+                ch = rng.choice(['range', 'content', 'name', 'enforce', 'drop'])
+                if ch == 'range':
+                    rs[i] = (s, e + 1, c, nm, enf)
+                elif ch == 'content':
+                    rs[i] = (s, e, c + 'k', nm, enf)
+                elif ch == 'name':
+                    rs[i] = (s, e, c, 'nn' if nm is None else None, enf)
+                elif ch == 'enforce':
+                    rs[i] = (s, e, c, nm, (enf + 1) % 3)
+                else:
+                    rs = rs[:i] + rs[i + 1:]
+                return replace_at(t, path, ('repl', n[1], rs)), 'replacement_' + ch
+            return replace_at(t, path, ('repl', n[1], [(0, 0, 'ins', None, 1)])), 'replacement_added'
+        if k == 'cached':
+            continue
+    return ('concat', 'new', [(False, t), (False, ('raws', 'q'))]), 'child_added'
+
+def gen_edit_pair(rng, cfg, with_ops=True):
+    g = gen_tree.Gen(rng, cfg)
+    a = g.node(weighted(rng, [(0, 2), (1, 3), (2, 3), (3, 2)]))
+    r = rng.random()
+    if r < 0.25:
+        b, kind = copy.deepcopy(a), 'identical'
+    elif r < 0.9:
+        b, kind = one_edit(rng, a)
+    else:
+        b, kind = gen_tree.Gen(rng, cfg).node(2), 'independent'
+    b = renumber(b, 1000)
+    feats = {'edit_' + kind} | gen_tree.kinds_of(a, set())
+    feats.add('nontrivial')
+    opsa = gen_hops(rng, 5) if with_ops and rng.random() < 0.6 else []
+    opsb = gen_hops(rng, 5) if with_ops and rng.random() < 0.4 else []
+    if opsa or opsb:
+        feats.add('observers_before_compare')
+    return Case('pair', {'a': a, 'b': b, 'relaxed': False, 'law': None, 'opsa': opsa, 'opsb': opsb}, feats)
+
+U64 = re.compile(r'u64:\d+')
+def mask_u64(kvs):
+    return {k: U64.sub('u64:*', v) if isinstance(v, str) else v for k, v in kvs.items()}
